@@ -95,8 +95,8 @@ def run(ctx, n_override=None):
                     ctx.coverage["samples"].append({"ndim": cur["ndim"], "order": cur["order"], "naxes": cur["naxes"], "naux": len(cur["aux"]), "backend": flags.get("backend"), "eq": flags.get("eq"), "eval": flags.get("eval")})
             elif w[0] == "B":
                 evals += 1
-                if m != "A %s 1 1 1" % w[1]:
-                    broken("(a) real writer bytes vs model store (decoded, store-equal, bytes-equal)", model=m, table=cur_line[:1500], line=k + 1)
+                if m != "A %s 1 1 1 1" % w[1]:
+                    broken("(a) real writer bytes vs model store and vs the independent layout specification (decoded, store-equal, bytes-equal, layout-equal)", model=m, table=cur_line[:1500], line=k + 1)
             elif w[0] == "V":
                 evals += 1
                 _, single, vm = c.split()[1:4]
